@@ -21,6 +21,7 @@ RoundOK(x) == /\ ~x.deadlock
                     /\ (r.op = "get" /\ ~x.destroyMid) => r.ok          \* against a working KDC every request succeeds
                     /\ (r.op = "login" /\ ~x.destroyMid) => r.ok        \* (unless the client is destroyed concurrently)
                     /\ (r.op = "kdcs") => GetKDCsIsPermutation(x, r)
+                    /\ (r.op = "kpasswd") => (r.ok /\ r.count = Len(x.kpConfigured) /\ r.servers = x.kpConfigured)   \* the same for password-change servers
 LineOK(x) == IF x.ev = "race" THEN FALSE ELSE RoundOK(x)
 Init == LT!Init
 Next == LT!Next
